@@ -4,7 +4,7 @@ per-system generation / oracle / projection in lib/c16_<system>.py."""
 import json, os, re, time
 from concurrent.futures import ThreadPoolExecutor
 import vlib
-import c16_dqueue, c16_shcounter, c16_loadbalancer, c16_gcounter, c16_proxy, c16_shopcart, c16_nested, c16_replicatedkv, c16_gotests, c16_shopnode
+import c16_dqueue, c16_shcounter, c16_loadbalancer, c16_gcounter, c16_proxy, c16_shopcart, c16_nested, c16_replicatedkv, c16_gotests, c16_shopnode, c16_live
 
 ID = "C16"
 THEOREMS = "Properties/C16.v"
@@ -25,6 +25,8 @@ TRUSTED_BASE = [
     "spec-state resources of harness/steplib (the specs' mapping macros over the specs' global variables) stand for the deployment resources "
     "(TCP mailboxes, channels, failure detector, 2PC / CRDT resources); that those give atomic labels over reliable FIFO links is C01/C06/C07/C11/C13",
     "choices resolved inside the implementation (either / with) are dictated by index and the chosen element is observed and handed to the model",
+    "live runs (lib/c16_live.py, cmd/c16/live.go): real deployment resources, schedules chosen by the Go scheduler, judged only on channel outputs, 2PC snapshots "
+    "(hook verif_hooks_c11.go) and how each archetype ended; they add no proof obligation and no coverage claim",
 ]
 ASSUMPTIONS = [
     "labels are atomic steps (C01) over the specs' network models (C06)",
@@ -38,7 +40,8 @@ RULE = ("cases = schedules per system from one PRNG (VERIF_SEED): seeded online 
         "were produced; shcounter = >= 2 nodes and a node had to wait; loadbalancer = >= 2 pages received through >= min(2, NUM_SERVERS) servers; gcounter / shopcart = "
         ">= 2 nodes and >= 2 merges; proxy = a request answered and (a server failed or >= 2 answers); nestedcrdtimpl = a committed section and (1 node or a peer merge); shopnode = an Add and a Remove applied and (1 node or a merge); replicatedkv = a client operation completed; "
         "a *.gotests program = it ran to completion (echo server: >= 2 echoes; PBFail4: a client finished); "
-        "distinct by the schedule actually taken.")
+        "distinct by the schedule actually taken. Live runs: 4 shcounter (RPC x 4, 6 nodes; in-process x 3, 5), 2 dqueue, 2 loadbalancer, 3 proxy scenarios per quick run + live corpus cases; "
+        "non-trivial = finished clean; distinct by what was observed.")
 
 
 def corpus():
@@ -53,19 +56,52 @@ def corpus():
     return out
 
 
+def run_live(ctx, live_cases):
+    """deployment smoke runs (lib/c16_live.py): one harness process per case, three at a time"""
+    if not live_cases:
+        return
+    t0 = time.time()
+
+    def one(c):
+        return c16_live.run_one("c16", {"id": 0, "system": c["system"], "cfg": c["cfg"]}, c["cfg"].get("DEADLINE_MS", 10000))
+    with ThreadPoolExecutor(max_workers=3) as ex:
+        results = list(ex.map(one, live_cases))
+    per = {}
+    for c, (live, err) in zip(live_cases, results):
+        a = c16_live.analyse(c, live, err)
+        ctx.add_case(json.dumps([c["system"], c["cfg"], a["observed"]]), a["nontrivial"])
+        d = per.setdefault(c["system"], {"runs": 0, "clean": 0})
+        d["runs"] += 1
+        d["clean"] += 0 if a["fails"] else 1
+        for k, v in a["stats"].items():
+            d[k] = d.get(k, 0) + v
+        for sig, what in a["fails"]:
+            ctx.failures.append({"signature": sig, "what": "%s %s: %s" % (c["system"], json.dumps(c["cfg"], sort_keys=True), what),
+                                 "case": {"system": c["system"], "kind": "live", "cfg": c["cfg"]}, "obs": a["observed"][:1500]})
+        if ctx.replay:
+            print("replay: live", c["system"], c["cfg"], "failures", a["fails"], "observed", a["observed"][:600])
+    ctx.extra["live_runs"] = per
+    ctx.extra["seconds_live_runs"] = round(time.time() - t0, 1)
+
+
 def run(ctx):
     rng = ctx.rng
     bysys = {m.NAME: m for m in SYSTEMS}
     if ctx.replay:
         cases = [json.load(open(ctx.replay))["case"]]
     else:
-        cases = [c for c in corpus() if c.get("system") in bysys]
+        cases = [c for c in corpus() if c.get("system") in bysys or c.get("system", "").startswith("live_")]
         for m in SYSTEMS:
             n = BUDGET[m.NAME][0 if ctx.tier == "quick" else 1]
             for _ in range(n):
                 cases.append(m.gen(rng))
+    live_cases = [c for c in cases if c.get("system", "").startswith("live_")]
+    cases = [c for c in cases if not c.get("system", "").startswith("live_")]
+    if not ctx.replay:
+        live_cases += c16_live.gen(rng, ctx.tier)
     for i, c in enumerate(cases):
         c["id"] = i
+    run_live(ctx, live_cases)
     dist, outcomes, labels = {}, {}, {}
     steps_total = 0
     walks = {m.NAME: [] for m in SYSTEMS}
@@ -163,7 +199,7 @@ def run(ctx):
                                    "case": a["explicit"],
                                    "impl": r["steps"][idx] if idx is not None and idx < len(r["steps"]) else None,
                                    "model": out2.strip()[-600:]})
-    if ctx.replay:
+    if ctx.replay and byid:
         r = byid[0]
         for o in r["steps"]:
             print("replay:", o["proc"], o["label"], o["outcome"], o["picks"], json.dumps(o["state"]))
@@ -186,7 +222,7 @@ MANIFEST = {
              "shopcart (complete for the instance the spec declares, ANodeBench + AWORSet): StrongConvergence, QueryOK, equal knowledge => equal query, add clocks monotone, "
              "remove maps stay Null, no ill-typed step. "
              "proxy (complete): ProxyOK under the perfect failure detector and NUM_SERVERS < 100, FAIL reported only if all servers stopped, FD accuracy; "
-             "assertion/type freedom incl. the client's resp.id = reqId (one-outstanding-request token invariant). nestedcrdtimpl: MonotonicState (no component of any replica state decreases in any step), view never decreases; StateSanity as written in the spec is refuted (it sums over SETS; known finding, witness replayed on the generated code) and the bound it intends (no replica shows more than the writes issued) is proved, with the handshake / write-accounting invariants and the Node's assertion freedom; and type safety (the with-chosen send target is always a resource id). shopcart ANode (the interactive archetype, whole AWORSet with removes, shared input queue; own model ShopNode.v): clocks live on NodeSet, an element never has both an add and a remove clock, the answer is exactly the elements with an add clock, Merge's assertions hold, type safety for inputs over ElemSet; monotonicity of the raw clocks is refuted once removes exist (it is an ANodeBench statement). replicatedkv (28 labels, typed model Rkv.v, tie): no assertion written in the spec fails (all four: msg.client \\in liveClients, firstPending.op, getResp.type, putResp.type), via message typing + 'no Get of c is queued or held at a replica that has disconnected c'; type errors oracle-only. The *.gotests programs (hello, IndexingLocals, NonDetExploration, bug2_124, PBFail4_bug125, bug_119, ProcedureSpaghetti, ExprTests) run under the same walks with the assertion / type-error / crash oracle and each program's expected values; models + theorems for IndexingLocals (type safe, final log and p) and NonDetExploration (AComplex's assertion fails EXACTLY when the with chose the same element all 20 times: refuted as the spec itself announces; known finding with witness). PBFail4 with >= 3 replicas fails its own `assert rep.from = idx` (acks out of order; known finding with witness; walks use <= 2 replicas). Tie: the generated archetypes "
+             "assertion/type freedom incl. the client's resp.id = reqId (one-outstanding-request token invariant). nestedcrdtimpl: MonotonicState (no component of any replica state decreases in any step), view never decreases; StateSanity as written in the spec is refuted (it sums over SETS; known finding, witness replayed on the generated code) and the bound it intends (no replica shows more than the writes issued) is proved, with the handshake / write-accounting invariants and the Node's assertion freedom; and type safety (the with-chosen send target is always a resource id). shopcart ANode (the interactive archetype, whole AWORSet with removes, shared input queue; own model ShopNode.v): clocks live on NodeSet, an element never has both an add and a remove clock, the answer is exactly the elements with an add clock, Merge's assertions hold, type safety for inputs over ElemSet; monotonicity of the raw clocks is refuted once removes exist (it is an ANodeBench statement). replicatedkv (28 labels, typed model Rkv.v, tie): no assertion written in the spec fails (all four: msg.client \\in liveClients, firstPending.op, getResp.type, putResp.type), via message typing + 'no Get of c is queued or held at a replica that has disconnected c'; type errors oracle-only. The *.gotests programs (hello, IndexingLocals, NonDetExploration, bug2_124, PBFail4_bug125, bug_119, ProcedureSpaghetti, ExprTests) run under the same walks with the assertion / type-error / crash oracle and each program's expected values; models + theorems for IndexingLocals (type safe, final log and p) and NonDetExploration (AComplex's assertion fails EXACTLY when the with chose the same element all 20 times: refuted as the spec itself announces; known finding with witness). PBFail4 with >= 3 replicas fails its own `assert rep.from = idx` (acks out of order; known finding with witness; walks use <= 2 replicas). Live (deployment smoke) runs, oracle-only: the same generated archetypes over the REAL deployment resources their tests wire up, free-running goroutines in one process, a deadline on everything, every port taken from 127.0.0.1:0 — shcounter x 3-6 over real resources.NewTwoPC replicas (RPCReplicaHandle over loopback, and LocalReplicaHandle through the C11 hook): every node finishes, every replica's committed value is NUM_NODES, committed value and version never decrease in 2 ms samples, no archetype error; dqueue over TCP mailboxes + Input/OutputChan: every produced item is output exactly once, each consumer in production order; loadbalancer over TCP mailboxes + the real FileSystem: every client receives, in order, the content of the pages it requested and nothing more; proxy over TCP mailboxes + the real FailureDetector and Monitor (all servers up / none / one stopped mid-way): reply count, ids, from/to, a non-FAIL body names a server that was running when the request was sent, FAIL when none was started (FAIL while a server runs is only counted: the deployment's detector is timeout-based, not perfect). These runs tie the properties to the wiring code steplib bypasses; they establish that no violation was OBSERVED on the schedules the Go scheduler happened to produce (a handful per quick run) — no coverage claim, no atomicity or interleaving control, and what is not observable from outside (e.g. in-flight messages) is not judged. They found the twopc.go defect fixed by /repo 2512b762 (known_findings: fixed). Tie: the generated archetypes "
              "run under the real Run loop one attempt at a time over spec-state resources (the specs' mapping macros); each model runs the same schedule in Coq; every "
              "post-state and outcome compared; implementation-side oracles per system on the Go observations."),
     "level_note": ("Per system as stated in the text. Trusted: Coq kernel; hand-written models (differential tie: 81 quick / 7400 thorough "
